@@ -149,6 +149,16 @@ impl LocalBlindPool {
         self.len() == 0
     }
 
+    /// Verification hook: read-only snapshot of every inner pool's bookkeeping (in layout key
+    /// order), see `crate::verif`.
+    #[cfg(folo_verif)]
+    #[must_use]
+    pub fn verif_probe(&self) -> Vec<crate::verif::PoolProbe> {
+        let core = self.core.borrow();
+
+        core.values().map(RawOpaquePool::verif_probe).collect()
+    }
+
     /// Ensures that the pool has capacity for at least `additional` more objects of type `T`.
     ///
     /// # Panics
